@@ -155,12 +155,18 @@ func (p c13Path) trivial() bool {
 
 type c13Case struct {
 	out, in c13Path
+	out2    c13Path // second declared output of the same task (sweep E)
+	has2    bool
 	extras  []string
 	sweep   string
 }
 
 func (c *c13Case) key() string {
-	return c.out.s + " <- " + c.in.s + " + [" + strings.Join(c.extras, " ") + "]"
+	k := c.out.s + " <- " + c.in.s + " + [" + strings.Join(c.extras, " ") + "]"
+	if c.has2 {
+		k += " & " + c.out2.s
+	}
+	return k
 }
 
 // c13EffectiveExtras: the sibling is not written when the library would try to move it to the
@@ -236,6 +242,24 @@ func c13Enumerate(aDepth, bDepth int, cAlpha string, dDepth int, shard, nshards 
 	for i, p := range dPaths {
 		for _, x := range c13Extras {
 			add(&c13Case{out: p, in: c13Parse(c13FixedIn[i%ni]), extras: x, sweep: "D"})
+		}
+	}
+	// E: a task with TWO declared outputs, in every pair of (non-conflicting) places
+	for _, o := range ps {
+		for _, o2 := range ps {
+			if o.s == o2.s || c13Conflict(o, o2) {
+				continue
+			}
+			// names that look like the library's internal placeholders are the business of the
+			// single-output sweeps (known findings there); here: ordinary names in two places
+			if !strings.HasSuffix(o.class(), ":-") || !strings.HasSuffix(o2.class(), ":-") {
+				continue
+			}
+			in := c13Parse(c13FixedIn[0])
+			if c13Conflict(o, in) || c13Conflict(o2, in) {
+				continue
+			}
+			add(&c13Case{out: o, out2: o2, has2: true, in: in, extras: nil, sweep: "E"})
 		}
 	}
 	sizes["cases_total"] = idx
@@ -326,6 +350,7 @@ type c13Finding struct {
 const (
 	c13OutTok = "OUT-TOKEN-c13"
 	c13InTok  = "IN-TOKEN-c13"
+	c13Out2Tok = "OUT2-TOKEN-c13"
 )
 
 func c13ExtraTok(i int) string { return fmt.Sprintf("EXTRA-%d-TOKEN-c13", i) }
@@ -334,6 +359,9 @@ func c13ExtraTok(i int) string { return fmt.Sprintf("EXTRA-%d-TOKEN-c13", i) }
 // time the command runs) that {i:in} resolves to the input's bytes, write the extras
 func (c *c13Case) command() string {
 	parts := []string{"echo " + c13OutTok + " > {o:out}", "{ test \"$(cat {i:in})\" = " + c13InTok + " || exit 41; }"}
+	if c.has2 {
+		parts = append(parts, "echo "+c13Out2Tok+" > {o:out2}")
+	}
 	for i, x := range c.extras {
 		if x != c13Sib {
 			if d := filepath.Dir(x); d != "." {
@@ -380,6 +408,13 @@ func (c *c13Case) run(env *c13Env) (finds []c13Finding, cmdline string, strayDir
 		// destination directory pre-existing for ../ and absolute forms
 		os.MkdirAll(filepath.Dir(outLoc), 0777)
 	}
+	out2Loc := ""
+	if c.has2 {
+		out2Loc = env.loc(c.out2)
+		if c.out2.prefix != "" && c.out2.prefix != "./" {
+			os.MkdirAll(filepath.Dir(out2Loc), 0777)
+		}
+	}
 	_, preDirs := c13Scan(env.root)
 	pre := map[string]bool{}
 	for _, d := range preDirs {
@@ -399,6 +434,9 @@ func (c *c13Case) run(env *c13Env) (finds []c13Finding, cmdline string, strayDir
 		src := components.NewFileSource(wf, "src", env.real(c.in))
 		p := wf.NewProc("p", pattern)
 		p.SetOut("out", env.real(c.out))
+		if c.has2 {
+			p.SetOut("out2", env.real(c.out2))
+		}
 		p.In("in").From(src.Out())
 		wf.Run()
 	}, nil)
@@ -427,6 +465,9 @@ func (c *c13Case) run(env *c13Env) (finds []c13Finding, cmdline string, strayDir
 		{"input", "in", inLoc, c13InTok},
 		{"out", "out", outLoc, c13OutTok},
 	}
+	if c.has2 {
+		wants = append(wants, want{"out", "out2", out2Loc, c13Out2Tok})
+	}
 	hasSib := false
 	for i, x := range c.extras {
 		if x == c13Sib {
@@ -443,6 +484,9 @@ func (c *c13Case) run(env *c13Env) (finds []c13Finding, cmdline string, strayDir
 		setSig = "set=" + strings.Join(c.extras, "+") + "|" + oc
 	}
 	expected := map[string]bool{outLoc + ".audit.json": true}
+	if c.has2 {
+		expected[out2Loc+".audit.json"] = true
+	}
 	for _, w := range wants {
 		expected[w.loc] = true
 	}
